@@ -3,6 +3,7 @@ import Fabio.Driver.RouteJson
 import Fabio.Model.Route
 import Fabio.Model.Parse
 import Fabio.Model.C14
+import Fabio.Model.C14Watch
 /-!
 Driver handlers for C14. `agree` compares the model (`Model/C14.lean` on top of `Model/Parse.lean` and
 `Model/Route.lean`) with the real `routecmd.build` / `parseURLPrefixTag` / `makeConfig` + `NewTable`; `spec`
@@ -224,6 +225,7 @@ def poisonH : Handler := fun inp impl => do
   let hostile := allIntents.any (fun i => !expressibleB env pf i)
   let (spec, tag) : Bool × String :=
     if (impl.getObjVal? "panic").toOption.isSome then (false, "update-panics") else
+    if (impl.getObjVal? "blocked").toOption.isSome then (false, "update-blocked:makeConfig") else
     match impl.getObjVal? "error" with
     | .ok e => (false, s!"update-lost:{errWhat e}")
     | .error _ =>
@@ -269,6 +271,7 @@ def stepVerdict (env : Env) (pf : ParseFloat) (c : Cfg) (regs : List Reg) (step 
   let allIntents := (named regs).flatMap (intents c)
   let wanted := (allIntents.filter (expressibleB env pf)).filterMap (wantDef pf)
   let optional := (allIntents.filter (fun i => !expressibleB env pf i)).filterMap (wantDef pf)
+  if (step.getObjVal? "blocked").toOption.isSome then (false, "update-blocked:makeConfig") else
   match step.getObjVal? "error" with
   | .ok e => (false, s!"update-lost:{errWhat e}")
   | .error _ =>
@@ -314,6 +317,100 @@ def historyH : Handler := fun inp impl => do
     (if agree then "" else "/text-differs")
   return ({ model := m, agree, spec, nontrivial := rereg, tag } : Verdict).toJson
 
+/-! ### c14.watch -/
+
+/-- the `register` option of a definition -/
+def regName (d : RouteDef) : Option Str := d.opts.lookup Fabio.Model.C05Glue.kRegister
+
+/-- One step of `c14.watch`, judged on the implementation's own table and `Register` calls: the active table holds
+the route of every current routing tag that fits the grammar and nothing that neither a current registration nor
+the operator's manual text asked for; the names last handed to `Register` are those the current registrations
+(and the manual text) ask for. -/
+def watchVerdict (env : Env) (pf : ParseFloat) (c : Cfg) (regs : List Reg) (manDefs : List RouteDef) (manOK : Bool)
+    (step : Json) : Bool × String :=
+  let allIntents := (named regs).flatMap (intents c)
+  let wanted := (allIntents.filter (expressibleB env pf)).filterMap (wantDef pf)
+  let allowed := allIntents.filterMap (wantDef pf) ++ manDefs
+  if (step.getObjVal? "blocked").toOption.isSome then (false, "update-blocked:makeConfig") else
+  if (step.getObjVal? "crash").toOption.isSome then (false, "update-crashes") else
+  if !manOK then (true, "man-rejected") else
+  if manDefs.any (fun d => d.cmd != .add) then (true, "man-nonadd") else
+  match (step.getObjVal? "table").toOption.map tableOfJson with
+  | some (.ok t) =>
+    if !wanted.all (present env t) then (false, "update-lost:route-missing")
+    else if !t.all (fun kv => kv.2.all (fun r => r.targets.all (asked env allowed kv.1 r.path))) then
+      (false, "update-lost:stale-or-foreign-route")
+    else
+      let calls : List (List Str) :=
+        (((step.getObjValAs? (Array Json) "registered").toOption.getD #[]).toList.map
+          (fun j => (strList j).toOption.getD []))
+      match calls.getLast? with
+      | none => (false, "register-not-called")
+      | some names =>
+        if !(wanted.filterMap regName).all (fun n => names.contains n) then (false, "alias-missing")
+        else if !names.all (fun n => (allowed.filterMap regName).contains n) then (false, "alias-foreign")
+        else (true, "ok")
+  | _ => (false, "no-table")
+
+def optStrOf (j : Json) : Option Str :=
+  match j with
+  | .str s => some s.toList
+  | _ => none
+
+def watchH : Handler := fun inp impl => do
+  let c := cfgOf inp
+  let o := oracleOf inp impl
+  let env := envOf o
+  let pf := pfOf o
+  let stepsJ := (inp.getObjValAs? (Array Json) "steps").toOption.getD #[]
+  let steps ← stepsJ.toList.mapM (fun st => do
+    let evs ← (st.getArr?.toOption.getD #[]).toList.mapM evOf
+    return evs.filterMap id)
+  let mans : List (Option Str) := ((inp.getObjValAs? (Array Json) "man").toOption.getD #[]).toList.map optStrOf
+  let cats := catalogs [] steps
+  let texts := cats.map (fun cat => config env pf c (current cat))
+  -- every update is delivered twice (the second delivery returns when the loop has finished with the first)
+  let evsOf (k : Nat) (text : Str) : List Fabio.Model.C14Watch.WEv :=
+    (match (mans.getD k none) with
+     | some m => [.man m, .man m]
+     | none => []) ++ [.svc text, .svc text]
+  let (_, states) := (texts.zipIdx).foldl (fun (acc : Fabio.Model.C14Watch.WState × List Fabio.Model.C14Watch.WState) (tk : Str × Nat) =>
+    let s' := Fabio.Model.C14Watch.run env pf acc.1 (evsOf tk.2 tk.1)
+    (s', acc.2 ++ [s'])) (Fabio.Model.C14Watch.init, [])
+  let mSteps := (texts.zip states).map (fun (t, s) => Json.mkObj [("text", str t), ("table", tableJson s.table),
+    ("registered", Json.arr ((Fabio.Model.C14Watch.collapse s.registered).map strArr).toArray)])
+  let m := Json.mkObj [("steps", Json.arr mSteps.toArray)]
+  let implSteps := ((impl.getObjValAs? (Array Json) "steps").toOption.getD #[]).toList
+  let agreeStep (ms is : Json) : Bool :=
+    getStrD is "text" == getStrD ms "text" && closeJson (objOr ms "table" |> fun t => Json.mkObj [("table", t)]) is &&
+    (is.getObjVal? "registered").toOption == (ms.getObjVal? "registered").toOption
+  let agree := implSteps.length == mSteps.length && (mSteps.zip implSteps).all (fun (a, b) => agreeStep a b)
+  -- the property, step by step; the manual text in force at a step is the last one delivered
+  let manAt (k : Nat) : Option Json := ((List.range (k+1)).reverse.findSome? (fun j =>
+    match mans.getD j none with
+    | some _ => implSteps[j]?
+    | none => none))
+  let verdicts := (cats.zipIdx.zip implSteps).map (fun ((cat, k), st) =>
+    let (manDefs, manOK) : List RouteDef × Bool := match manAt k with
+      | some ms =>
+        (match ms.getObjValAs? (Array Json) "man_defs" with
+         | .ok a => ((a.toList.mapM routeDef).toOption.getD [], (ms.getObjValAs? Bool "man_ok").toOption.getD false)
+         | .error _ => ([], (ms.getObjValAs? Bool "man_ok").toOption.getD false))
+      | none => ([], true)
+    watchVerdict env pf c (current cat) manDefs manOK st)
+  let bad := verdicts.find? (fun v => !v.1)
+  let spec := bad.isNone && implSteps.length == cats.length
+  let changes := (texts.zip (texts.drop 1)).any (fun (a, b) => a != b)
+  let someRoute := cats.any (fun cat => ((named (current cat)).flatMap (intents c)).any (expressibleB env pf))
+  let outside := verdicts.any (fun v => v.2 != "ok")
+  let tag := (match bad with
+    | some v => v.2
+    | none => if implSteps.length != cats.length then "step-count"
+              else if outside then (verdicts.find? (fun v => v.2 != "ok")).map (·.2) |>.getD "ok"
+              else if mans.any (·.isSome) then "history+manual" else if changes then "history" else "static") ++
+    (if agree then "" else "/watch-differs")
+  return ({ model := m, agree, spec, nontrivial := changes && someRoute && !outside, tag } : Verdict).toJson
+
 /-! ### c14.expand, c14.quote -/
 
 def expandH : Handler := fun inp impl => do
@@ -358,5 +455,5 @@ def quoteH : Handler := fun inp impl => do
   return ({ model := str q, agree := okB && okChars, spec := true, nontrivial := escapes, tag } : Verdict).toJson
 
 def streams : List (String × Handler) :=
-  [("c14.build", buildH), ("c14.poison", poisonH), ("c14.history", historyH), ("c14.expand", expandH), ("c14.quote", quoteH)]
+  [("c14.build", buildH), ("c14.poison", poisonH), ("c14.history", historyH), ("c14.watch", watchH), ("c14.expand", expandH), ("c14.quote", quoteH)]
 end Fabio.Driver.C14
